@@ -189,6 +189,11 @@ class Sess:
         self.lock = threading.Lock()
 
     def new_ident(self):
+        if self.rng.random() < self.k.get("ident_wild", 0.0):
+            # engine boots / time outside 0..2^31-1 (a broken or hostile agent): the client echoes what it accepted, and
+            # where 32 bits of them enter a salt or an IV, encoder and decoder must take the same 32 bits
+            wild = [(1 << 32) + 5, -1, 1 << 31, (1 << 32) - 1, (1 << 40) + 7, -(1 << 31)]
+            return self.rng.choice(wild + [3]), self.rng.choice(wild + [9])
         w = self.rng.choice(self.k.get("ident_widths", [1, 2, 3, 4]))
         hi = min((1 << (8 * w - 1)) - 1, 0x7FFFFFFF)
         lo = 0 if w == 1 else 1 << (8 * (w - 1) - 1)
@@ -456,6 +461,8 @@ class Sess:
         if not expect_sent:
             self.exp = None
         call_op = {"open": "open"}.get(op, op)
+        if op == "get_many" and args and rng.random() < 0.3:
+            call_op = "get_many_gen"   # the names as a one-shot iterator
         if op == "open" and self.beh == "drop" and cfg.client == "async" and rng.random() < 0.5:
             call_op = "open_cancel"   # the lost first exchange ends by cancellation from outside instead of the session's timeout
         lim = 5000
